@@ -292,7 +292,7 @@ def search(ctx):
                 # raster images: pixel (i, j) at (i*sx, j*sy), requested channels; averaging independent of file order
                 if i % 3 == 0:
                     K = int(rng.integers(2, 5))
-                    colour = rng.random() < 0.4
+                    colour = rng.random() < 0.5
                     arrs = [rng.integers(1, 255, size=(nx, ny, 3) if colour else (nx, ny)).astype('uint8') for _ in range(K)]
                     paths = []
                     for j, a in enumerate(arrs):
@@ -302,6 +302,16 @@ def search(ctx):
                     ctx.tried("raster", (nx, ny, colour, K, i))
                     spx = (0.11, 0.23)
                     ch = [int(c) for c in rng.permutation(3)[:int(rng.integers(1, 4))]] if colour else None
+                    if colour:
+                        # every way of asking for the channels: all three in each non-identity order, with a repeat, pairs in both orders
+                        for chx in ([2, 0, 1], [1, 0, 2], [2, 1, 0], [0, 0, 1], [2, 0], [0, 2]):
+                            lx = load_image(paths[0], spacing=spx, channel=chx)
+                            ctx.tried("raster-channels", (tuple(chx), i))
+                            lv = lx.transpose('x', 'y', 'illumination', ...).values.reshape(nx, ny, len(chx))
+                            if not np.array_equal(lv, arrs[0][:, :, chx].astype(float)) or list(lx.illumination.values) != [['red', 'green', 'blue'][c] for c in chx]:
+                                ctx.violation("C16:load-image-channels", "load_image(channel=%r): the data or labels are not the requested channels of the file (labels %r)" % (chx, list(lx.illumination.values)),
+                                              dict(info, kind="raster", channel=chx))
+                                break
                     li = load_image(paths[0], spacing=spx, channel=ch)
                     want = arrs[0][:, :, ch].squeeze() if colour else arrs[0]
                     okc = np.allclose(li.x.values, np.arange(nx) * spx[0], rtol=0, atol=1e-15) and np.allclose(li.y.values, np.arange(ny) * spx[1], rtol=0, atol=1e-15)
